@@ -30,3 +30,50 @@ package mqtt
 // across wrap-around of both the 16-bit and the 32-bit value: two identifiers handed out
 // while fewer than 65536 counter steps lie between them are different.
 //@ lemma id_window[C15] mode bv forall a uint32, d uint32 :: 0 < d && d <= 65535 ==> uint16(a) != uint16(a+d)
+
+// ---- topic filters (C14). Oracle: first-order definitions written from MQTT 3.1.1 section 4.7;
+// levels are defined as strings.Split(x, "/").
+
+//@ spec
+//@ // a level of a filter is well-formed: '+' only as the whole level, '#' only as the whole last level
+//@ func validLevel(p string, last bool) bool {
+//@ 	return (!hasByte(p, '+') || p == "+") && (!hasByte(p, '#') || (p == "#" && last))
+//@ }
+//@
+//@ func validFilter(ps []string) bool {
+//@ 	return forall(0, len(ps), func(i int) bool { return validLevel(ps[i], i == len(ps)-1) })
+//@ }
+//@
+//@ // one filter level against one topic level
+//@ func lvl(a, b string) bool { return a == "+" || a == b }
+//@
+//@ // section 4.7.1.2 / 4.7.1.3: '#' (necessarily last) matches its parent and any number of
+//@ // descendants; otherwise the level counts agree and every level matches.
+//@ func specMatch(f []string, ts []string) bool {
+//@ 	n := len(f)
+//@ 	if n > 0 && f[n-1] == "#" {
+//@ 		return len(ts) >= n-1 && forall(0, n-1, func(j int) bool { return lvl(f[j], ts[j]) })
+//@ 	}
+//@ 	return len(ts) == n && forall(0, n, func(j int) bool { return lvl(f[j], ts[j]) })
+//@ }
+//@
+//@ func sameStrings(a, b []string) bool {
+//@ 	return len(a) == len(b) && forall(0, len(a), func(i int) bool { return a[i] == b[i] })
+//@ }
+//@ end
+
+//@ func newTopicFilter
+//@   mode int
+//@   props C14
+//@   pure
+//@   loop 1 invariant forall(0, rangeindex+1, func(j int) bool { return validLevel(splitOf(filter)[j], j == len(splitOf(filter))-1) })
+//@   ensures[C14] accept: (result1 == nil) == (len(filter) > 0 && validFilter(splitOf(filter)))
+//@   ensures[C14] parts: result1 == nil ==> sameStrings(result0, splitOf(filter))
+
+//@ func (topicFilter).Match
+//@   mode int
+//@   props C14
+//@   pure
+//@   requires len(f) >= 1 && validFilter(f)
+//@   loop 1 invariant 0 <= i && i <= len(f) && i <= len(splitOf(topic)) && forall(0, i, func(j int) bool { return f[j] != "#" && lvl(f[j], splitOf(topic)[j]) })
+//@   ensures[C14] result == specMatch(f, splitOf(topic))
